@@ -13,6 +13,18 @@ CHECKS = {
    text="TLC evaluates the NDJSON mapping of spec/wire/Ndjson.tla (Json, Kinds, Untagged) over the bounded universe, including a two-case union for every pair of JSON-kind classes (tagged/untagged decision) and record values that differ in which optional fields are present, checks UntaggedIsDecodable and exports every case; each case is read from the spec's NDJSON by the generated C++ and Python readers and re-written (output must equal the documented JSON tree), and cross-checked against the spec's binary encoding in both directions.",
    note="Same bounded universe as C01. JSON compared as values (numbers numerically, float32 after rounding, object key order ignored, time fractions may drop trailing zeros as the reference's FFFFFFFFF format allows); non-finite floats excluded. C++ date/time text comes from /verif's date.h shim.",
    tech="TLA+ functional spec evaluated by TLC, one implementation execution per exported case (equality with spec-computed JSON trees)"),
+ "C03": dict(cat="model_checking", engine="tlc-export+generated-code",
+   text="For every case exported by TLC from the wire specification, every chain 'language A reads the spec's stream in format f0 and writes format f1, language B reads A's actual output and writes binary' over {C++, Python} x {binary, NDJSON} is executed; A's output and B's output must both lie in the spec's admissible sets (Enc up to block boundaries and map entry order; the documented JSON tree), which is exactly byte-identity of the binary streams of the two languages up to block boundaries and map order.",
+   note="Same bounded universe as C01/C02 (types that C++ cannot build, see C08 findings, are excluded because two languages are needed). MATLAB is never executed. C++ uses /verif's shims.",
+   tech="TLA+ functional spec evaluated by TLC; two-hop cross-language/cross-format replay of every exported case"),
+ "C07": dict(cat="model_checking", engine="tlc-replay+generated-code",
+   text="TLC explores spec/proto/ProtocolSM.tla: every protocol shape up to the bound x every API call in every reachable state, for four API models (C++ writer, C++ reader with single and batch reads, Python writer, Python reader), checking that the implementation-shaped state machines (generated state numbering) refine the abstract step-order requirement; one shortest call history per (state, call) is exported and performed on the real generated readers/writers (accept/raise per call, delivered counts); a 130-step protocol exercises the state counter width.",
+   note="Shapes of length <=3 (quick) / <=4 (thorough), two items per stream. 'either' where the property is silent (fully delivered stream whose end was not observed; Python stream step never written). Sequences end at the first rejected call. MATLAB not executed.",
+   tech="TLA+ state machine + TLC exhaustive exploration with VIEW; replay of exported call histories on generated code"),
+ "C17": dict(cat="model_checking", engine="tlc-replay+generated-code",
+   text="TLC explores spec/wire/StreamBlocks.tla: every partition of the written items into blocks x every sequence of single and batch reads (capacities 1..3) on the implementation-shaped reader (current_block_remaining, unobserved-completion state), checking NoReadPastTerminator/DeliveredIsPrefix/DoneMeansAll/MoreMeansProgress; completed behaviours are replayed on the generated C++ readers (binary and NDJSON) over streams whose consecutive items differ in map keys, optional presence, vector length, union case and array shape; whole-stream copies cover every partition x CopyTo capacity (C++) and list/generator/per-item writes (Python).",
+   note="4 items per stream, capacities <=3 (<=4 for CopyTo); quick replays a seeded sample of the TLC behaviours per package, thorough all. Values compared as JSON trees / admissible byte sets from the wire spec.",
+   tech="TLA+ state machine + TLC exhaustive exploration; replay of exported behaviours on generated code"),
  "C18": dict(cat="model_checking", engine="tlc+cli-replay",
    text="TLC explores the implementation-shaped loader of spec/tool/Imports.tla on every configuration (ordered import lists x namespace labelling) of <=3 directories incl. self-imports, of 4 directories, and of a chain+shortcut family that reaches the real depth limit, checking OutcomeMatches/LoadedExactlyReach/Terminates against the abstract requirement; every exported terminal state is then replayed on the real `yardl generate` (exit status, model.json, generated Python for shared-dependency graphs) and the hook trace of collectPackages is compared with the spec behaviour.",
    note="Exhaustive within the stated bounds (quick replays a seeded sample of the 4-directory space, thorough all of it). Local directory imports only; error wording not asserted; the exact depth boundary (= limit) is left to the tool.",
